@@ -1,5 +1,14 @@
 package seq
 
-import "encoding/json"
+import (
+	"encoding/json"
+
+	"github.com/ipfs/go-cid"
+	format "github.com/ipfs/go-ipld-format"
+
+	"verif/engine/store"
+)
 
 func jsonUnmarshal(b []byte, v interface{}) error { return json.Unmarshal(b, v) }
+
+func decodeBlock(c cid.Cid, raw []byte) (format.Node, error) { return store.Decode(c, raw) }
